@@ -299,7 +299,8 @@ def splitLit (pat : List Char) : Nat → List Char → List Char → List (List 
 def isNameChar (c : Char) : Bool := c.isAlphanum || c == '_'
 def isDigitC (c : Char) : Bool := '0' ≤ c && c ≤ '9'
 
-/-- The first statement of `core::replace` (`core.rs:812`): `\$([1-9][0-9]*)` ↦ `${N}`. -/
+/-- The first statement of `core::replace` (`core.rs:832`): `\$([0-9][0-9]*)` ↦ `${N}` (since the repair
+"`$0` followed by a name character": the digit run may begin with 0, so `$0x` is the whole match and `x`). -/
 def rewriteGroups : Nat → List Char → List Char
   | 0, cs => cs
   | _ + 1, [] => []
@@ -307,12 +308,15 @@ def rewriteGroups : Nat → List Char → List Char
     if c == '$' then
       match cs with
       | d :: _ =>
-        if '1' ≤ d && d ≤ '9' then
+        if '0' ≤ d && d ≤ '9' then
           let ds := cs.takeWhile isDigitC
           '$' :: '{' :: ds ++ '}' :: rewriteGroups fuel (cs.dropWhile isDigitC)
         else c :: rewriteGroups fuel cs
       | [] => [c]
     else c :: rewriteGroups fuel cs
+
+/-- A group reference that the `regex` crate reads as the number 0 (`name.parse::<usize>()`): `0`, `00`, … -/
+def isGroupZero (name : List Char) : Bool := !name.isEmpty && name.all (· == '0')
 
 /-- Expansion of a replacement string by the `regex` crate when the pattern has no groups:
 `$$` is `$`, `$0`/`${0}` the match, any other `$name`/`${name}` the empty string, a `$` not
@@ -330,12 +334,12 @@ def expandRepl (whole : List Char) : Nat → List Char → List Char
         match after with
         | _ :: after' =>
           if name.isEmpty then '$' :: expandRepl whole fuel cs
-          else (if name == ['0'] then whole else []) ++ expandRepl whole fuel after'
+          else (if isGroupZero name then whole else []) ++ expandRepl whole fuel after'
         | [] => '$' :: expandRepl whole fuel cs
       | d :: _ =>
         if isNameChar d then
           let name := cs.takeWhile isNameChar
-          (if name == ['0'] then whole else []) ++ expandRepl whole fuel (cs.dropWhile isNameChar)
+          (if isGroupZero name then whole else []) ++ expandRepl whole fuel (cs.dropWhile isNameChar)
         else '$' :: expandRepl whole fuel cs
       | [] => ['$']
     else c :: expandRepl whole fuel cs
